@@ -30,6 +30,15 @@ type c08Case struct {
 	StopDelay  int       `json:"stop_delay_us"`
 	ReleaseUs  int       `json:"release_us"` // when the gate opens after Stop returned ("after-stop" gates)
 	Procs      int       `json:"procs,omitempty"`
+	// AbandonMore: the first batch of that many producers also carries an
+	// abandoned unbuffered done channel (several undeliverable waiters at once)
+	AbandonMore int `json:"abandon_more,omitempty"`
+	// AbandonedAt[p][i]: producer p's i-th batch carries an abandoned unbuffered channel
+	AbandonedAt [][]bool `json:"abandoned_at,omitempty"`
+	// Flushers: Flush callers that arrive after the wedge has formed and before
+	// Stop (their requests queue behind the wedged flush)
+	Flushers   int   `json:"flushers,omitempty"`
+	FlushDelay []int `json:"flush_delay_us,omitempty"`
 }
 
 func genC08() *rapid.Generator[c08Case] {
@@ -66,6 +75,59 @@ func genC08() *rapid.Generator[c08Case] {
 		c.StopDelay = pick(t, "stopdelay", []int{0, 500, 3000, 10000})
 		c.ReleaseUs = pick(t, "releaseus", []int{0, 0, 2000, 20000})
 		c.Procs = pick(t, "procs", []int{0, 2, 4})
+		if wedged {
+			if chance(t, "abandonmore", 35) {
+				c.AbandonMore = rapid.IntRange(1, np).Draw(t, "nabandon")
+			}
+			switch unif(t, "shape", 10) {
+			case 0, 1:
+				// deep backlog of undeliverable waiters: every stage of the pipeline
+				// (flush worker, flush queue, the ingest actor's pending enqueue, the
+				// ingest buffer) holds requests, many of them with abandoned channels,
+				// and producers are parked on the full ingest buffer when Stop arrives
+				c.Cfg.BufRows = 1
+				c.Cfg.IngestBuf = pick(t, "deepbuf", []int{1, 2})
+				c.Producers, c.AbandonedAt = nil, nil
+				for i := 0; i < 3; i++ {
+					k := rapid.IntRange(3, 6).Draw(t, "deepn")
+					ps := make([]int, k)
+					ab := make([]bool, k)
+					for j := range ab {
+						ab[j] = chance(t, "deepab", 60)
+					}
+					c.Producers = append(c.Producers, ps)
+					c.AbandonedAt = append(c.AbandonedAt, ab)
+				}
+				c.StopCtx = pick(t, "deepstop", []string{"deadline", "deadline", "late"})
+				c.StopDelay = pick(t, "deepdelay", []int{3000, 10000, 30000})
+			case 2, 3:
+				// quiet wedge: a single flush is wedged, nothing else is buffered or
+				// queued, and Flush callers arrive: their ack-only requests sit in
+				// the flush queue when the deadline fires
+				c.Cfg.BufRows = 1
+				c.Producers = [][]int{{0}}
+				if c.Abandon {
+					c.Producers = nil
+				}
+				if c.Gate != nil {
+					c.Gate.N = 0
+				}
+				c.AbandonedAt = nil
+				c.AbandonMore = 0
+				c.StopDelay = pick(t, "quietdelay", []int{3000, 10000})
+				c.StopCtx = "deadline"
+				c.Flushers = rapid.IntRange(1, 2).Draw(t, "qflushers")
+				for i := 0; i < c.Flushers; i++ {
+					c.FlushDelay = append(c.FlushDelay, pick(t, "qflushdelay", []int{0, 300, 2000}))
+				}
+			}
+			if c.Flushers == 0 && chance(t, "flushers", 40) {
+				c.Flushers = rapid.IntRange(1, 2).Draw(t, "nflushers")
+				for i := 0; i < c.Flushers; i++ {
+					c.FlushDelay = append(c.FlushDelay, pick(t, "flushdelay", []int{0, 300, 2000}))
+				}
+			}
+		}
 		return c
 	})
 }
@@ -85,6 +147,14 @@ type c08Obs struct {
 	queuedBehind bool
 	unanswered   []int
 	answeredAtStop map[int]bool
+	wedgeFormed  bool
+	flushRes     []c08FlushRes
+}
+
+type c08FlushRes struct {
+	err      error
+	returned bool
+	started  bool // invoked after the wedge had formed and before Stop was called
 }
 
 func runC08Once(c c08Case) (*c08Obs, *Violation) {
@@ -132,9 +202,13 @@ func runC08Once(c c08Case) (*c08Obs, *Violation) {
 		wg.Add(1)
 		go func(pi int, pauses []int) {
 			defer wg.Done()
-			for _, p := range pauses {
+			for bi, p := range pauses {
 				time.Sleep(time.Duration(p) * time.Microsecond)
 				b := book.NewBatch("good", "buf", 1, 1)
+				if (bi == 0 && pi < c.AbandonMore) || (pi < len(c.AbandonedAt) && bi < len(c.AbandonedAt[pi]) && c.AbandonedAt[pi][bi]) {
+					b.Ch = make(chan error) // unbuffered, nobody ever receives
+					b.ChanKind = "abandoned"
+				}
 				ctx, cancel := context.WithTimeout(bg, 3*time.Second)
 				b.CallT0 = tr.tick()
 				err := eng.IngestRows(ctx, b.Rows, b.Ch)
@@ -154,6 +228,26 @@ func runC08Once(c c08Case) (*c08Obs, *Violation) {
 		case <-ctl.Entered[0]:
 		case <-time.After(300 * time.Millisecond):
 		}
+	}
+	if c.Gate != nil {
+		obs.wedgeFormed = ctl.GateEntered(0)
+	} else if c.Abandon {
+		obs.wedgeFormed = true
+	}
+	obs.flushRes = make([]c08FlushRes, c.Flushers)
+	var fmu sync.Mutex
+	var fwg sync.WaitGroup
+	for i := 0; i < c.Flushers; i++ {
+		fwg.Add(1)
+		obs.flushRes[i].started = true
+		go func(i int) {
+			defer fwg.Done()
+			time.Sleep(time.Duration(c.FlushDelay[i]) * time.Microsecond)
+			err := eng.Flush(bg)
+			fmu.Lock()
+			obs.flushRes[i].err, obs.flushRes[i].returned = err, true
+			fmu.Unlock()
+		}(i)
 	}
 	time.Sleep(time.Duration(c.StopDelay) * time.Microsecond)
 
@@ -228,6 +322,13 @@ func runC08Once(c c08Case) (*c08Obs, *Violation) {
 	case <-time.After(6 * time.Second):
 		return obs, violf("producers still blocked in IngestRows 6s after Stop returned and every gate was released")
 	}
+	fDone := make(chan struct{})
+	go func() { fwg.Wait(); close(fDone) }()
+	select {
+	case <-fDone:
+	case <-time.After(6 * time.Second):
+		return obs, violf("a Flush call accepted before Stop had not returned 6s after Stop returned %v and every gate was released (silence)", obs.stopErr)
+	}
 	time.Sleep(150 * time.Millisecond)
 	book.Collect()
 	obs.calls = tr.Calls()
@@ -295,6 +396,16 @@ func judgeC08(c c08Case, o *c08Obs) (v *Violation, timing bool) {
 			}
 		}
 	}
+	// A Flush call made after the wedge had formed sits behind the wedged flush
+	// in the single FIFO flush queue (or was refused): whatever handles it runs
+	// after Stop's deadline abort, so it is told about the abort, not "durable".
+	if o.wedgeFormed {
+		for i, fr := range o.flushRes {
+			if fr.started && fr.returned && fr.err == nil && c.StopDelay >= c.FlushDelay[i] {
+				return violf("Flush call #%d, made while a flush was wedged (gate=%s abandon=%v) and before Stop, returned nil although Stop returned %v: a waiter queued behind the abort must get an error", i, jsonKey(c.Gate), c.Abandon, o.stopErr), false
+			}
+		}
+	}
 	// every waiter that can still receive gets a value (an error, not silence)
 	if len(o.unanswered) > 0 {
 		return violf("after Stop returned %v and every gate was released, accepted batches %v (buffered done channels) never received a value", o.stopErr, o.unanswered), true
@@ -355,7 +466,7 @@ func runC08(c c08Case) *Violation {
 }
 
 func TestC08(t *testing.T) {
-	Ev.Rule = "case = engine with IngestBufferSize 1-8 and MaxBufferedRows 1-2 (every batch is its own flush); optional wedge (a gate at the 1st/2nd CreateFile/Write/Close/Update that honours or ignores ctx and opens right after Stop returns or only at the end; or an abandoned unbuffered done channel); 1-3 producers issuing up to 6 batches each (blocked on the full buffer when wedged); one Stop with a 50-300 ms deadline, an already-cancelled ctx, no practical deadline, or a custom Context whose AfterFunc callbacks run 600-900 ms late. Oracle on the recorded history: IngestRows/Flush called after Stop returned => ErrEngineStopped; Stop nil => every batch accepted before it returned was already answered; Stop returns within deadline + 350 ms; after a deadline error no CreateFile starts (logical clock of the tracing wrapper) and no Update for a file created afterwards; once the gates are open every accepted batch with a buffered channel has a value. stoprace phase: 1-5 IngestRows/Flush callers held, through a Context whose Done() call parks, between the engine's stopped check and its enqueue; Stop is started and the callers are released before, 0-2 ms into, or after (30 ms) it; Stop nil => every accepted batch answered exactly once, every caller returns, later calls are refused. Time/ordering verdicts are confirmed by three isolated re-executions. Non-trivial: Stop returned a deadline error while >=2 batches were accepted behind a wedge; distinct by case."
+	Ev.Rule = "case = engine with IngestBufferSize 1-8 and MaxBufferedRows 1-2 (every batch is its own flush); optional wedge (a gate at the 1st/2nd CreateFile/Write/Close/Update that honours or ignores ctx and opens right after Stop returns or only at the end; or an abandoned unbuffered done channel); 1-3 producers issuing up to 6 batches each (blocked on the full buffer when wedged); one Stop with a 50-300 ms deadline, an already-cancelled ctx, no practical deadline, or a custom Context whose AfterFunc callbacks run 600-900 ms late. Oracle on the recorded history: IngestRows/Flush called after Stop returned => ErrEngineStopped; Stop nil => every batch accepted before it returned was already answered; Stop returns within deadline + 350 ms; after a deadline error no CreateFile starts (logical clock of the tracing wrapper) and no Update for a file created afterwards; once the gates are open every accepted batch with a buffered channel has a value. when wedged: optionally several producer batches with abandoned unbuffered channels, a deep backlog shape (every pipeline stage full, producers parked on the ingest buffer) and a quiet-wedge shape (one wedged flush, nothing else queued), and 1-2 Flush callers arriving after the wedge formed and before Stop: such a Flush must return (no silence) and, after a deadline error, with an error. stoprace phase: 1-5 IngestRows/Flush callers held, through a Context whose Done() call parks, between the engine's stopped check and its enqueue; Stop is started and the callers are released before, 0-2 ms into, or after (30 ms) it; Stop nil => every accepted batch answered exactly once, every caller returns, later calls are refused. Time/ordering verdicts are confirmed by three isolated re-executions. Non-trivial: Stop returned a deadline error while >=2 batches were accepted behind a wedge; distinct by case."
 	Ev.Assumptions = []string{"a flush already inside a ctx-ignoring store call when the deadline hits may finish (documented)", "deadline allowance 350 ms; timing verdicts need 3/3 reproductions"}
 	runChecks(t, "schedules", 100, 3000, genC08(), runC08)
 	runChecks(t, "stoprace", 60, 1500, genStopRace(), runStopRace)
